@@ -1,10 +1,82 @@
 import DFV.JsonField
+import DFV.Model.C18
 namespace DFV.Drv
-open Lean DFV
+open Lean DFV DFV.C18
 
-/-- driver ops of property C18 (stub: no ops yet) -/
+def m3OfJson (j : Json) : R M3 := do
+  let rows ← listOf (listOf ratOfJson) j
+  if rows.length ≠ 3 ∨ rows.any (fun r => r.length ≠ 3) then throw "3x3 matrix expected"
+  pure (M3.ofRows rows)
+
+def m3ToJson (Q : M3) : Json := listJ ratsJ Q.toRows
+
+def c18OpOfJson (j : Json) : R C18.Op := do
+  match fldOpt j "rot" with
+  | some q =>
+    let Q ← m3OfJson q
+    let n ← match fldOpt j "n" with
+      | some v => some <$> listOf natOfJson v
+      | none => pure none
+    pure (.rotate Q n)
+  | none => pure .clear
+
+/-- state after one call: error flag, accumulated rotation, current field, and (for a
+successful rotate) the boundary-comparator data: per-cell margins and the cubes behind the
+automatic cell counts -/
+def c18StepJson (s : Rotator) (op : C18.Op) (res : Rotator × Option Err) : Json :=
+  let base := [("err", match res.2 with | some e => Json.str (toString e) | none => Json.null),
+               ("rot", m3ToJson res.1.rot)]
+  match op, res.2 with
+  | .rotate Q _, none =>
+    let R := Q.mul s.rot
+    let g := res.1.cur
+    let x3 := match newRegion s.orig R with
+      | .ok reg => (List.range 3).map (autoX3 s.orig R reg)
+      | .error _ => []
+    Json.mkObj (base ++ [("field", fldToJson g), ("x3", ratsJ x3),
+      ("margins", ratsJ ((indicesC g.mesh.n).map fun idx => margin s.orig (backPos s.orig R g.mesh idx)))])
+  | .clear, _ => Json.mkObj (base ++ [("is_orig", .bool true)])
+  | _, _ => Json.mkObj base
+
+def c18History (s : Rotator) (ops : List C18.Op) : Json :=
+  let rec go (cur : Rotator) (ops : List C18.Op) (acc : List Json) : List Json :=
+    match ops with
+    | [] => acc.reverse
+    | op :: rest =>
+      let res := step cur op
+      go res.1 rest (c18StepJson cur op res :: acc)
+  Json.arr (go s ops []).toArray
+
+/-- driver ops of property C18 -/
 def c18 (op : String) (j : Json) : Option (R Json) :=
   match op with
+  | "init" => some do
+      let f ← fldOfJson (← fld j "field")
+      pure (resJ (fun _ => Json.bool true) (init? f))
+  | "history" => some do
+      let f ← fldOfJson (← fld j "field")
+      let ops ← listOf c18OpOfJson (← fld j "ops")
+      match init? f with
+      | .error e => pure (errJ e)
+      | .ok s => pure (Json.mkObj [("ok", c18History s ops)])
+  | "quat" => some do
+      let q ← rats j "q"   -- [x, y, z, w] (scipy order)
+      let Q := M3.ofQuat (q.getD 3 0) (q.getD 0 0) (q.getD 1 0) (q.getD 2 0)
+      pure (Json.mkObj [("ok", m3ToJson Q), ("is_rot", .bool (decide Q.IsRot))])
+  | "interp" => some do
+      -- direct probe of the interpolator: scalar/vector field, identity rotation, points
+      -- relative to the region centre
+      let f ← fldOfJson (← fld j "field")
+      let pts ← listOf (listOf ratOfJson) (← fld j "pts")
+      match ordFor f with
+      | .error e => pure (errJ e)
+      | .ok ord =>
+        pure (Json.mkObj [("ok", listJ ratsJ (pts.map fun p =>
+          (fun loc => tab f.nvdim fun c => interpAt (padded f M3.one ord c) loc) (locOf f (V3.ofList p)))),
+          ("margins", ratsJ (pts.map fun p => margin f (V3.ofList p)))])
+  | "roundcbrt" => some do
+      let q ← ratOfJson (← fld j "q")
+      pure (Json.mkObj [("ok", .num (JsonNumber.fromNat (roundCbrt q)))])
   | _ => none
 
 end DFV.Drv
